@@ -135,7 +135,7 @@ func New(config ...Config) fiber.Handler {
 		// Cache Entry found
 		if e != nil {
 			// Invalidate cache if requested
-			if cfg.CacheInvalidator != nil && cfg.CacheInvalidator(c) {
+			if e.exp != 0 && cfg.CacheInvalidator != nil && cfg.CacheInvalidator(c) {
 				e.exp = ts - 1
 			}
 
